@@ -9,6 +9,7 @@ import (
 	"golang.org/x/sync/errgroup"
 
 	"github.com/avos-io/goat/gen/goatorepo"
+	"github.com/avos-io/goat/internal/verifhook"
 )
 
 const (
@@ -166,9 +167,11 @@ func (p *Proxy) forwardRpc(source string, rpc *goatorepo.Rpc) {
 	}
 	p.mutex.Unlock()
 
+	verifhook.At("proxy.forward", rpc.Id)
 	select {
 	case client.fromServer <- rpc:
 	default:
+		verifhook.At("proxy.drop", rpc.Id)
 		log.Warn().Str("source", rpc.Header.Source).
 			Str("destination", rpc.Header.Destination).
 			Str("method", rpc.Header.Method).
@@ -181,6 +184,7 @@ func (c *proxyClient) readLoop(ctx context.Context) error {
 	for {
 		rpc, err := c.conn.Read(ctx)
 		if err != nil {
+			verifhook.At("proxy.report", 0)
 			c.toServer <- command{id: c.id, err: err}
 			return errors.Wrap(err, "failed to read from connection")
 		}
@@ -200,6 +204,7 @@ func (c *proxyClient) writeLoop(ctx context.Context) error {
 
 			err := c.conn.Write(ctx, rpc)
 			if err != nil {
+				verifhook.At("proxy.report", 1)
 				c.toServer <- command{id: c.id, err: err}
 				return errors.Wrap(err, "failed to write to connection")
 			}
